@@ -642,8 +642,10 @@ func (x *Exec) bindFrameNames(env *SpecEnv, fr *Frame) {
 				n = x.contractParamName(fr.fn, con, i)
 			}
 			env.bind(n, TV{v, p.Type()})
+			env.bind(n+"0", TV{v, p.Type()}) // entry value (parameters are mutable in Go)
 			if p.Name() != "" {
 				env.bind(p.Name(), TV{v, p.Type()})
+				env.bind(p.Name()+"0", TV{v, p.Type()})
 			}
 		}
 	}
@@ -951,7 +953,7 @@ func (x *Exec) runFrom(fr *Frame, st *State, b *ssa.BasicBlock, start int, k fun
 			}
 			continue
 		case *ssa.If:
-			c := x.operand(fr, st, in.Cond).(*Term)
+			c := st.refine(x.operand(fr, st, in.Cond).(*Term))
 			if c.IsConst {
 				if c.BoolVal {
 					x.runBlock(fr, st, b.Succs[0], b, k)
@@ -1032,6 +1034,8 @@ func (x *Exec) fork(fr *Frame, st *State, c *Term, thenK, elseK func(*Frame, *St
 	fr2 := fr.clone()
 	st.Assume(c)
 	st2.Assume(Not(c))
+	st.learn(c)
+	st2.learn(Not(c))
 	x.countPath()
 	thenK(fr, st)
 	elseK(fr2, st2)
